@@ -230,13 +230,5 @@ Section Durable.
   Qed.
 End Durable.
 
-(** NOT PROVED (kept visible; listed in lib/props/c10.py NOT_PROVED): the walk is complete — every
-    non-empty mailbox that can be listed by name is among the mailboxes VisitMailboxes yields. It needs one
-    more disk invariant (every file's three parent directories exist) carried through all step lemmas.
-    The correspondence run samples it: every `v` operation of a C10 history compares the real walk with
-    the set of non-empty mailboxes of the ordered-map oracle. *)
-Definition visit_complete_stmt : Prop :=
-  forall (enc : index -> str) (dec : str -> option index), (forall i, dec (enc i) = Some i) ->
-  forall (hash : str -> str) (cap : nat) (d : disk) (mb : str) v,
-    reach enc dec hash cap d -> view dec d (hash mb) = Some v -> v <> [] ->
-    exists vs, visit dec d = Some vs /\ In v vs.
+(** The walk is complete on every reachable disk: Proofs/FileDiskParents.v, theorem [visit_complete]
+    (Props/C10/visit_complete). *)
